@@ -233,6 +233,13 @@ def build(repo, trace):
         tags.append('pub assume_specification [f32::%s] (x: f32) -> (r: f32) ensures r == fun1(T_%s(), x);' % (f, f))
     for f in F2:
         tags.append('pub assume_specification [f32::%s] (x: f32, y: f32) -> (r: f32) ensures r == fun2(T_%s(), x, y);' % (f, f))
+    # further f32 library methods an edited implementation might call: declared (uninterpreted) so that such an edit is decided
+    for i, f in enumerate(['trunc', 'fract', 'signum', 'sinh', 'cosh', 'tanh', 'exp2', 'log2', 'cbrt', 'recip']):
+        tags.append('pub open spec fn T_%s() -> int { %d }' % (f, 100 + i))
+        tags.append('pub assume_specification [f32::%s] (x: f32) -> (r: f32) ensures r == fun1(T_%s(), x);' % (f, f))
+    for i, f in enumerate(['copysign', 'min', 'max', 'powf', 'hypot']):
+        tags.append('pub open spec fn T_%s() -> int { %d }' % (f, 200 + i))
+        tags.append('pub assume_specification [f32::%s] (x: f32, y: f32) -> (r: f32) ensures r == fun2(T_%s(), x, y);' % (f, f))
     inj.append_items(AXIOMS.replace('/*@TAGS@*/', '\n'.join(tags)))
     names = list(specs) + ['Grad::from', 'lemma_fields']
     obls = [Obligation('grad::' + f, 'grad', f, props=PROPS) for f in names]
